@@ -78,3 +78,11 @@ func SrVerify(pk []byte, t *Transcript, sig []byte) bool {
 	lhs := B.Mul(s).Add(A.Mul(k).Neg())
 	return RistrettoEqual(lhs, R)
 }
+
+// SrTranscriptLabelled: signing context + one labelled message (sign-256 / sign-512 / sign-XoF prehashes).
+func SrTranscriptLabelled(ctx []byte, label string, data []byte) *Transcript {
+	t := NewTranscript([]byte("SigningContext"))
+	t.Append(nil, ctx)
+	t.Append([]byte(label), data)
+	return t
+}
